@@ -770,6 +770,48 @@ def _hash_ordered_props(pm):
     return names
 
 
+def _group_invariant(sel, lname, fn):
+    """`sel` selects one member of the list `lname`, a loop variable over the lists of a local grouping dictionary, and
+    what is read from that member is the key the dictionary groups by (or an attribute path below it): grouped by
+    `x.country`, `group[0].country.average_carbon_intensity` is the same whichever member is taken"""
+    used = []
+    x, par = sel, getattr(sel, "_parent", None)
+    while isinstance(par, ast.Attribute) and par.value is x:
+        used.append(par.attr)
+        x, par = par, getattr(par, "_parent", None)
+    if not used:
+        return False
+    keys = []
+    for it in _loop_iter_of(lname, fn):
+        if not (isinstance(it, ast.Call) and isinstance(it.func, ast.Attribute) and it.func.attr in ("values", "items")
+                and isinstance(it.func.value, ast.Name)):
+            return False
+        dname = it.func.value.id
+        for c in ast.walk(fn):
+            if isinstance(c, ast.Call) and isinstance(c.func, ast.Attribute) and c.func.attr == "append" and c.args \
+                    and isinstance(c.args[0], ast.Name):
+                b = c.func.value
+                k = None
+                if isinstance(b, ast.Call) and isinstance(b.func, ast.Attribute) and b.func.attr == "setdefault" \
+                        and isinstance(b.func.value, ast.Name) and b.func.value.id == dname and b.args:
+                    k = b.args[0]
+                elif isinstance(b, ast.Subscript) and isinstance(b.value, ast.Name) and b.value.id == dname:
+                    k = b.slice
+                if k is not None:
+                    keys.append((c.args[0].id, k))
+    if not keys:
+        return False
+    for elem, k in keys:
+        path = []
+        y = k
+        while isinstance(y, ast.Attribute):
+            path.insert(0, y.attr)
+            y = y.value
+        if not (isinstance(y, ast.Name) and y.id == elem and path and used[:len(path)] == path):
+            return False
+    return True
+
+
 @rule("R-SEL")
 def r_sel(E):
     pm = E.pm
@@ -811,6 +853,9 @@ def r_sel(E):
                             hot = True
                         if isinstance(v, ast.Call) and "set(" in norm(v):
                             hot = True
+            if not hot and fn is not None and isinstance(t, ast.Name):
+                # a local whose order comes, through grouping / filtering / copying, from such a collection
+                hot = _order_source(t, fn, None, extra=lambda x: isinstance(x, ast.Attribute) and x.attr in hashy) is not None
             if not hot:
                 continue
             res.instances += 1
@@ -828,6 +873,8 @@ def r_sel(E):
                     why = SEL_SINGLETON_COLLECTIONS[src_coll.attr]
                 elif q in SEL_ALLOWED:
                     why = SEL_ALLOWED[q]
+            if why is None and isinstance(t, ast.Name) and fn is not None and _group_invariant(n, t.id, fn):
+                why = "every member of the group agrees on what is read from the selected one (it is the grouping key)"
             if why is not None:
                 if len(res.samples) < 6:
                     res.samples.append({"site": f"{rel}:{int(n.lineno)} {q}", "selection": norm(n)[:60],
@@ -1421,16 +1468,53 @@ def _is_set(e, fn, seen=()):
     return False
 
 
-def _order_source(e, fn, find_function, depth=3, seen=()):
-    """the expression (text) of a set whose iteration order decides the order of the list e, or None: followed through
-    list() / comprehensions / append loops / local names / package functions that return the list"""
+def _loop_iter_of(name, fn):
+    """the iterables of the for loops / comprehensions of fn whose target binds `name`"""
+    out = []
+    for n in ast.walk(fn):
+        if isinstance(n, (ast.For, ast.comprehension)) and any(
+                isinstance(x, ast.Name) and x.id == name for x in ast.walk(n.target)):
+            out.append(n.iter)
+    return out
+
+
+def _grouped_lists_sources(dname, fn):
+    """iterables of the loops inside which lists stored in the local dict `dname` are filled
+    (`d.setdefault(k, []).append(x)`, `d[k].append(x)`, `d[k] = d.get(k, []) + [x]`, `d[k] += [x]`)"""
+    out = []
+    for c in ast.walk(fn):
+        hit = False
+        if isinstance(c, ast.Call) and isinstance(c.func, ast.Attribute) and c.func.attr in ("append", "extend", "insert"):
+            b = c.func.value
+            if isinstance(b, ast.Call) and isinstance(b.func, ast.Attribute) and b.func.attr in ("setdefault", "get") \
+                    and isinstance(b.func.value, ast.Name) and b.func.value.id == dname:
+                hit = True
+            if isinstance(b, ast.Subscript) and isinstance(b.value, ast.Name) and b.value.id == dname:
+                hit = True
+        if isinstance(c, (ast.Assign, ast.AugAssign)):
+            for t in (c.targets if isinstance(c, ast.Assign) else [c.target]):
+                if isinstance(t, ast.Subscript) and isinstance(t.value, ast.Name) and t.value.id == dname:
+                    hit = True
+        if hit:
+            x = getattr(c, "_parent", None)
+            while x is not None and x is not fn:
+                if isinstance(x, ast.For):
+                    out.append(x.iter)
+                x = getattr(x, "_parent", None)
+    return out
+
+
+def _order_source(e, fn, find_function, depth=3, seen=(), extra=None):
+    """the expression (text) of a set — or of a collection `extra` recognises — whose iteration order decides the order
+    of the list e, or None: followed through list() / comprehensions / append loops / local names / loop variables over
+    grouped dictionaries / package functions that return the list"""
     if e is None:
         return None
-    if _is_set(e, fn):
+    if _is_set(e, fn) or (extra is not None and extra(e)):
         return e
     if isinstance(e, (ast.ListComp, ast.GeneratorExp)):
         for g in e.generators:
-            r = _order_source(g.iter, fn, find_function, depth, seen)
+            r = _order_source(g.iter, fn, find_function, depth, seen, extra)
             if r is not None:
                 return r
         return None
@@ -1438,46 +1522,55 @@ def _order_source(e, fn, find_function, depth=3, seen=()):
         if isinstance(e.func, ast.Name) and e.func.id == "sorted":
             return None
         if isinstance(e.func, ast.Name) and e.func.id in ("list", "tuple", "reversed", "iter", "enumerate") and e.args:
-            return _order_source(e.args[0], fn, find_function, depth, seen)
+            return _order_source(e.args[0], fn, find_function, depth, seen, extra)
         if isinstance(e.func, ast.Attribute) and norm(e.func) == "dict.fromkeys" and e.args:
-            return _order_source(e.args[0], fn, find_function, depth, seen)
+            return _order_source(e.args[0], fn, find_function, depth, seen, extra)
         if isinstance(e.func, ast.Name) and depth > 0 and find_function is not None:
             h = find_function(e.func.id)
             if h is not None and h.name not in seen:
                 from ..astutil import helper_view
                 hv = helper_view(h, e)
                 for r in [n for n in ast.walk(hv) if isinstance(n, ast.Return) and n.value is not None]:
-                    s = _order_source(r.value, hv, find_function, depth - 1, seen + (h.name,))
+                    s = _order_source(r.value, hv, find_function, depth - 1, seen + (h.name,), extra)
                     if s is not None:
                         return s
         return None
     if isinstance(e, ast.BinOp) and isinstance(e.op, ast.Add):
-        return _order_source(e.left, fn, find_function, depth, seen) or _order_source(e.right, fn, find_function, depth, seen)
+        return _order_source(e.left, fn, find_function, depth, seen, extra) or _order_source(e.right, fn, find_function, depth, seen, extra)
     if isinstance(e, ast.Name) and fn is not None and ("$" + e.id) not in seen:
         seen2 = seen + ("$" + e.id,)
         for d in _defs_of(e.id, fn):
-            s = _order_source(d, fn, find_function, depth, seen2)
+            s = _order_source(d, fn, find_function, depth, seen2, extra)
             if s is not None:
                 return s
         for c in ast.walk(fn):
             if isinstance(c, ast.Call) and isinstance(c.func, ast.Attribute) and isinstance(c.func.value, ast.Name) \
                     and c.func.value.id == e.id and c.func.attr in ("append", "extend", "insert"):
                 if c.func.attr == "extend" and c.args:
-                    s = _order_source(c.args[0], fn, find_function, depth, seen2)
+                    s = _order_source(c.args[0], fn, find_function, depth, seen2, extra)
                     if s is not None:
                         return s
                 x = getattr(c, "_parent", None)
                 while x is not None and x is not fn:
                     if isinstance(x, ast.For):
-                        s = _order_source(x.iter, fn, find_function, depth, seen2)
+                        s = _order_source(x.iter, fn, find_function, depth, seen2, extra)
                         if s is not None:
                             return s
                     x = getattr(x, "_parent", None)
         for a in ast.walk(fn):
             if isinstance(a, ast.AugAssign) and isinstance(a.target, ast.Name) and a.target.id == e.id:
-                s = _order_source(a.value, fn, find_function, depth, seen2)
+                s = _order_source(a.value, fn, find_function, depth, seen2, extra)
                 if s is not None:
                     return s
+        # a loop variable that ranges over the lists of a local grouping dictionary: each list is in the order of the
+        # loop that filled it
+        for it in _loop_iter_of(e.id, fn):
+            if isinstance(it, ast.Call) and isinstance(it.func, ast.Attribute) and it.func.attr in ("values", "items") \
+                    and isinstance(it.func.value, ast.Name):
+                for src in _grouped_lists_sources(it.func.value.id, fn):
+                    s = _order_source(src, fn, find_function, depth, seen2, extra)
+                    if s is not None:
+                        return s
     return None
 
 
